@@ -31,6 +31,30 @@ def main():
         if op[0] == 'w':
             Path(op[1]).write_text(spec['contents'][op[2]])
             rec['out'] = '-'
+        elif op[0] == 'm':
+            # a direct in-process call of the simulator's main(), as an embedding program would make it: two-entry argv
+            from geophires_x import GEOPHIRESv3
+            os.chdir(spec['dir'])
+            sys.argv = ['embedding-program', op[1]]
+            argv0 = list(sys.argv)
+            try:
+                with contextlib.redirect_stdout(io.StringIO()), contextlib.redirect_stderr(io.StringIO()):
+                    GEOPHIRESv3.main(enable_geophires_logging_config=False)
+                rec['out'] = '-'
+            except BaseException as e:  # noqa
+                if isinstance(e, KeyboardInterrupt):
+                    raise
+                rec['out'] = '-'
+                rec['err'] = f'{type(e).__name__}: {e}'[:160]
+            rec['argv_ok'] = list(map(str, sys.argv)) == list(map(str, argv0))
+            rec['argv'] = list(map(str, sys.argv))[:4]
+            rec['cwd_ok'] = True
+            rec['cwd'] = os.getcwd()
+            os.chdir(cwd0)
+            sys.argv = ['history-driver']
+            out.write(json.dumps(rec) + '\n')
+            out.flush()
+            continue
         elif op[0] == 'wv':
             rec['out'] = '-'      # bookkeeping for the model only: names the content the next request (file + overriding parameters) asks for
         elif op[0] == 'c':
